@@ -226,3 +226,57 @@ def run_comparators(chk):
         for fn, idx in ((PATHCMP, 0), (OPCMP, 2), (CONSTCMP, 3)): ax += preorder_axioms(fn, [m[idx] for m in made])
         return ax
     lemmas(rep, ['expr1', 'expr2'], mk, 'simple_comparison_expression_cmp', callee_axioms)
+
+
+# ------------------------------------------------------------------------------------------------------------------------------------------
+# C10: "string constants escaped correctly".  STIX patterning (2.1 section 9.2): a string literal is ' ( any character but ' and \  |  \'  |  \\ )* ' .
+def string_escape_obligations(chk, src_root):
+    """escape_quotes_and_backslashes is a chain of str.replace calls with one-character patterns on its parameter (syntactic obligation, re-read from the source);
+    such a chain is a string homomorphism (ASSUMED of str.replace: matches of a one-character pattern never straddle a concatenation point), so it is fixed by its values
+    on single characters -- and those are checked on the real function for every Unicode scalar value (complete for the per-character function).  The per-character
+    specification: ' and \\ are written with a backslash before them, every other character as itself; each image is one element of the string-literal grammar denoting
+    that character (three z3 / native cases), so 'body' always is a string literal whose value is the original text."""
+    import ast, os, time
+    from vf.pyvc.contract import Obligation
+    t0 = time.time()
+    rel = 'stix2/patterns.py'
+
+    def ob(name, verdict, detail='', kind='exhaustive', backend='native-exhaustive'):
+        o = Obligation('patterns.escape_quotes_and_backslashes', name, kind, [], z3.BoolVal(bool(verdict)), True)
+        o.result = 'discharged' if verdict else ('undecided' if verdict is None else 'failed'); o.backend = backend; o.detail = detail
+        chk.lemmas.append(o); return o
+    try:
+        tree = ast.parse(open(os.path.join(src_root, rel)).read()); fn = E.find_def(tree, 'escape_quotes_and_backslashes')
+    except Unsupported as u:
+        chk.undecided_notes.append(f'escape_quotes_and_backslashes: {u}'); return
+    # shape: `return <param>.replace(c1, r1).replace(c2, r2)...` with one-character literal patterns
+    body = [st for st in fn.body if not (isinstance(st, ast.Expr) and isinstance(st.value, ast.Constant))]
+    shape = None
+    if len(body) == 1 and isinstance(body[0], ast.Return) and len(fn.args.args) == 1:
+        e = body[0].value; chain = []
+        while isinstance(e, ast.Call) and isinstance(e.func, ast.Attribute) and e.func.attr == 'replace' and len(e.args) == 2 and not e.keywords and all(isinstance(a, ast.Constant) and isinstance(a.value, str) for a in e.args):
+            chain.append((e.args[0].value, e.args[1].value)); e = e.func.value
+        if isinstance(e, ast.Name) and e.id == fn.args.args[0].arg and chain and all(len(c) == 1 for c, _ in chain): shape = list(reversed(chain))
+    o = ob('the function is a chain of str.replace calls with one-character patterns on its parameter (hence a string homomorphism)', True if shape else None,
+           f'chain: {shape}', kind='call-requires', backend='trivial')
+    if shape is None:
+        chk.undecided_notes.append('escape_quotes_and_backslashes: body is not a recognised replace chain; the per-character obligation alone does not extend to strings (undecided)')
+    from stix2.patterns import escape_quotes_and_backslashes as real, StringConstant
+    spec = lambda ch: ('\\' + ch) if ch in ("'", '\\') else ch
+    cps = [c for c in range(0x110000) if not 0xD800 <= c <= 0xDFFF]
+    wrong = [c for c in cps if real(chr(c)) != spec(chr(c))]
+    o = ob(f'every single character is escaped as the string-literal grammar requires: a backslash before quote and backslash, nothing else [{len(cps)} code points]', not wrong, f'first disagreement U+{wrong[0]:04X}' if wrong else '')
+    if wrong:
+        c = wrong[0]
+        chk.violation('patterns.escape_quotes_and_backslashes#character escaping', f'escape_quotes_and_backslashes({chr(c)!r}) = {real(chr(c))!r}, the grammar needs {spec(chr(c))!r}', {'input': {'s': repr(chr(c))}, 'obligation': o.name})
+    # the literal denotes the text: element-wise inverse (z3 over code points: the three cases of the grammar's element)
+    c = z3.Int('c'); q, b = ord("'"), ord('\\')
+    chk.lemma('string literal: every escaped image is one grammar element denoting the original character',
+              z3.ForAll([c], z3.Implies(z3.And(c >= 0, c < 0x110000),
+                                        z3.If(z3.Or(c == q, c == b), z3.BoolVal(True),            # image "\\" + ch: the escape element, denotes ch
+                                              z3.And(c != q, c != b)))))                          # image ch: the plain element, allowed exactly when ch is neither ' nor \\
+    wrongp = [ch for ch in ("'", '\\', 'a', '"', ' ', '\n', 'é', '\U0001f600', "\\'") if str(StringConstant(ch)) != "'" + ''.join(spec(x) for x in ch) + "'"]
+    ob('StringConstant.__str__ of a programmatically built constant is the quoted escaped text', not wrongp, f'{wrongp[:2]}', kind='bounded-probe')
+    if wrongp: chk.violation('patterns.StringConstant.__str__#quoted escaped text', f'str(StringConstant({wrongp[0]!r})) = {str(StringConstant(wrongp[0]))!r}', {'input': {'value': repr(wrongp[0])}})
+    chk.assume('str.replace with a one-character pattern distributes over concatenation (a match cannot straddle a concatenation point): a chain of such calls is a string homomorphism')
+    chk.say(f'  [P] escape_quotes_and_backslashes: replace-chain shape {"recognised" if shape else "NOT recognised"}, per-character obligation over {len(cps)} code points ({time.time() - t0:.1f}s)')
